@@ -14,7 +14,7 @@ one() {
   if ! (cd $W/repo && patch -p1 -s --no-backup-if-mismatch < /verif/refactorings/$id/patch.diff >/dev/null 2>&1); then echo "$id: does not apply"; rm -rf $W; return; fi
   if ! (cd $W/repo && go build ./... >/dev/null 2>&1); then echo "$id: does not build on the current tree"; rm -rf $W; return; fi
   alarms=""
-  for p in $(bin/ndndcheck -list); do
+  for p in ${PROPS:-$(bin/ndndcheck -list)}; do
     o=$(bin/ndndcheck -prop $p -tier quick -repo $W/repo -verif $W/verif 2>&1 | grep -E "^(VIOLATION|UNDECIDED): " | sed -E 's/^(VIOLATION|UNDECIDED): (C[0-9]+) ([^ ]+) .*/\1 \2 \3/' | sort -u | tr '\n' ';')
     alarms="$alarms$o"
   done
